@@ -354,7 +354,12 @@ func extBuilderString(fr *frame, args []value) value {
 }
 func extBuilderWrite(fr *frame, args []value) value {
 	b := seqBytes(args[1])
-	setBuilderBuf(args[0], append(builderBuf(args[0]), b...))
+	// append is a read-modify-write of the buffer header: not atomic. In schedule
+	// exploration another goroutine may run between the read and the write (this is
+	// what makes unsynchronised concurrent writers lose data, as they do natively).
+	old := builderBuf(args[0])
+	fr.i.yield("mem")
+	setBuilderBuf(args[0], append(old[:len(old):len(old)], b...))
 	return tuple{len(b), iface{}}
 }
 
